@@ -152,6 +152,20 @@ void h_RandomU64_function_of_state(void)
 	global_config.prng_seed = seed1;
 	uint64_t r1 = RandomU64();
 	uint64_t s1[4] = {the_ctx.state[0], the_ctx.state[1], the_ctx.state[2], the_ctx.state[3]};
+	/* re-bound run, directly after the first: the same LP again, now bound to a context at another address that holds the same words (the next
+	 * simulation run of the process reusing the LP slot, or a state restored into a relocated context): the stream is
+	 * a function of the words behind current_lp->rng_ctx, not of what this thread drew before */
+	static struct rng_ctx third_ctx;
+	for(int k = 0; k < 4; k++)
+		third_ctx.state[k] = in_state[k];
+	the_lp.rng_ctx = &third_ctx;
+	current_lp = &the_lp;
+	uint64_t r3 = RandomU64();
+	VASSERT(r3 == r1 && s1[0] == third_ctx.state[0] && s1[1] == third_ctx.state[1] && s1[2] == third_ctx.state[2] &&
+		    s1[3] == third_ctx.state[3],
+	    "C09.RandomU64 draws from the context the LP is bound to now (no state remembered by the thread)");
+	VASSERT(s1[0] == the_ctx.state[0] && s1[1] == the_ctx.state[1] && s1[2] == the_ctx.state[2] && s1[3] == the_ctx.state[3],
+	    "C09.RandomU64 leaves a context the LP is no longer bound to alone");
 	/* second run: same generator state at a different address, hosted by another thread / rank */
 	for(int k = 0; k < 4; k++)
 		other_ctx.state[k] = in_state[k];
